@@ -1528,10 +1528,13 @@ def run(run: Run):
     walls["b"], t_part = round(time.time() - t_part, 1), time.time()
     # ---- (c) -------------------------------------------------------------------------------------
     depth = 5 if quick else 7
+    wrap_depth = 4 if quick else 6
     for maxlen in (1, 2, 3):
         explore.bfs(run, LogHarness(maxlen), depth=depth, dev_bound=0, label=f"view maxlen={maxlen} ")
     for mode in ("direct", "wrap"):  # the other public ways an entry reaches a logger
-        explore.bfs(run, LogHarness(2, mode), depth=depth, dev_bound=0, label=f"view maxlen=2 via {mode} ")
+        # the fan-out search has two loggers' worth of state: one level shallower (wrap_depth)
+        explore.bfs(run, LogHarness(2, mode), depth=depth if mode == "direct" else wrap_depth, dev_bound=0,
+                    label=f"view maxlen=2 via {mode} ")
     ovf_items = [(pi, f, g) for pi in range(len(OVF_PREFIXES)) for f in OVF_NARROW for g in OVF_WIDER]
     for d in pmap(_ovf_work, ovf_items, run.jobs):
         run.merge(d)
